@@ -283,7 +283,8 @@ def kind_term(e):
     if k == "deploy-waited":
         return "KDeployWaited %d %s" % (idn(a[0]), bool_lit(a[1]))
     if k == "slot":
-        return "KSlot %d %s %d %s" % (idn(a[0]), bool_lit(a[1] == 1), idn(a[2]), opt_id(a[3]))
+        # a nil balancer put into a slot (not a behaviour of the pinned code: every acceptor rejects the unknown id 4095)
+        return "KSlot %d %s %d %s" % (idn(a[0]), bool_lit(a[1] == 1), 4095 if a[2] == "nil" else idn(a[2]), opt_id(a[3]))
     if k == "install":
         return "KInstall %d %s" % (idn(a[0]), bool_lit(a[1]))
     if k == "removed":
